@@ -284,10 +284,7 @@ theorem step_J (pick : Pick) {s : State} (h : J s) (a : Act) : J (step pick s a)
   | shutdown =>
     exact h.quiet (Quiet.ofLog [] (by simp [step]) (by simp) (by simp) rfl rfl rfl rfl) rfl
   | env op =>
-    show J (if opPeer op == s.peer then s else (s.allocStep pick op).1)
-    split
-    · exact h
-    · exact h.quiet (allocStep_quiet pick s op) rfl
+    exact h.quiet (allocStep_quiet pick s op) rfl
 
 theorem init_J (peer mr mt mp : Nat) : J (init peer mr mt mp) := by
   right
